@@ -87,7 +87,7 @@ Definition orientation (f : field) : field :=
 Definition arr_ok (m : mesh) (nvdim : nat) (a : list (list K)) : bool :=
   (length a =? ncells m)%nat && forallb (fun v => (length v =? nvdim)%nat) a.
 
-(* Field.update_field_values(array of shape (*n, nvdim)) *)
+(* Field.update_field_values(array of shape mesh.n + (nvdim,)) *)
 Definition update_values (f : field) (a : list (list K)) : res field :=
   if arr_ok (f_mesh f) (f_nvdim f) a
   then OK (mkField (f_mesh f) (f_nvdim f) (f_unit f) (f_valid f) a)
@@ -131,6 +131,11 @@ End NormModel.
 
 Arguments NConst {K}. Arguments NArr {K}. Arguments NFun {K}.
 Arguments OSetNorm {K}. Arguments OUpdate {K}. Arguments OSetValid {K}.
+Arguments mkField {K}.
+Arguments zeros {K}. Arguments unit_cell {K}. Arguments scale_cell {K}. Arguments set_cell {K}.
+Arguments spec_values {K}. Arguments norm_field {K}. Arguments set_norm {K}. Arguments orientation {K}.
+Arguments arr_ok {K}. Arguments update_values {K}. Arguments set_valid {K}. Arguments mk_field {K}.
+Arguments run_op {K}. Arguments run_ops {K}.
 Arguments f_mesh {K}. Arguments f_nvdim {K}. Arguments f_unit {K}. Arguments f_valid {K}. Arguments f_arr {K}.
 
 (* ---------- executable instance at Qc ---------- *)
